@@ -144,7 +144,7 @@ func (c *C16a) Run(t *testing.T, scn any) *sim.Outcome {
 	// one free-running computation (no scheduler: the goroutines run as the Go runtime likes), so
 	// that the race detector also sees sharing that the one-at-a-time scheduler serialises
 	n++
-	if o := Execute(t, w, RunSpec{Kind: "all", Dir: filepath.Join(dir, fmt.Sprintf("r%d", n)), Manifest: &w.Manifest, Opts: &opts, Pass: true}); !o.Over {
+	if o := Execute(t, w, RunSpec{Kind: "all", Dir: filepath.Join(dir, fmt.Sprintf("r%d", n)), Manifest: &w.Manifest, Opts: &opts, Pass: true, Free: true}); !o.Over {
 		out.Executions++
 		if d := digest(o); d != ref && !bad {
 			bad = true
